@@ -103,6 +103,14 @@ impl Buildpack for TB {
             for i in 0..16 { t.insert(format!("key_{}", (i * 7) % 16), toml::Value::String(format!("v{i}"))); }
             beta.write_metadata(t)?;
         }
+        if std::env::var("VERIF_LAYERS").as_deref() == Ok("2") {
+            // C20: a restored layer (seeded by the harness: seven process env dirs, one of them empty) whose environment is read and written back
+            use libcnb::layer::{CachedLayerDefinition, InvalidMetadataAction, RestoredLayerAction};
+            let delta = c.cached_layer(libcnb::data::layer_name!("delta"), CachedLayerDefinition { build: false, launch: true,
+                invalid_metadata_action: &|_| InvalidMetadataAction::DeleteLayer, restored_layer_action: &|_: &GenericMetadata, _| RestoredLayerAction::KeepLayer })?;
+            let env = delta.read_env()?;
+            delta.write_env(env)?;
+        }
         let parts = std::env::var("VERIF_PARTS").unwrap_or_default();
         let has = |x: &str| parts.split(',').any(|p| p == x);
         let fmts = [SbomFormat::CycloneDxJson, SbomFormat::SpdxJson, SbomFormat::SyftJson];
@@ -114,6 +122,12 @@ impl Buildpack for TB {
             for (i, t) in ["web", "worker", "console", "release"].iter().enumerate() { lb.process(ProcessBuilder::new(t.parse().unwrap(), [format!("cmd-{i}")]).arg(format!("arg-{i}")).default(i == 0).build()); }
             for i in 0..8 { lb.label(libcnb::data::launch::Label { key: format!("org.example.label-{}", (i * 5) % 8), value: format!("value-{i}") }); }
             for i in 0..3 { lb.slice(libcnb::data::launch::Slice { path_globs: vec![format!("dir-{i}/**"), format!("*.{i}")] }); }
+            b = b.launch(lb.build());
+        }
+        if has("richlaunch2") {
+            // several process types flagged default (the lifecycle would reject it; libcnb writes what it was given, the same in every process)
+            let mut lb = LaunchBuilder::new();
+            for (i, t) in ["web", "worker", "console", "release", "clock"].iter().enumerate() { lb.process(ProcessBuilder::new(t.parse().unwrap(), [format!("cmd-{i}")]).default(i != 1).build()); }
             b = b.launch(lb.build());
         }
         if has("store") { let mut t = toml::Table::new(); t.insert("witness".into(), toml::Value::String("stored".into())); b = b.store(Store { metadata: t }); }
